@@ -794,35 +794,54 @@ def translate(repo):
     return {"C04/Gen.v": to_coq(extract(repo))}
 
 
-def deviations(table, resolve=True):
-    """Python mirror of the Coq predicates (used to generate the `static` cases; the verdict that
-    counts is the Coq theorem over the same table)."""
+def deviations(table):
+    """Python mirror of the Coq predicates of coq/C04/Table.v with an empty exception list (used to
+    generate the `*_static` cases; the verdict that counts is the Coq theorem over the same table).
+
+    Returns (ctor, guard): ctor = list of dicts {cls, param, how, via} with (cls, param) the ROOT
+    class/parameter where the deviation is written (`via` = classes that inherit it by forwarding);
+    guard = list of dicts {cls, owner, method, status, what}."""
     bykey = {r["key"]: r for r in table.rows.values()}
 
-    def param_ok(p, st, fuel=12):
+    def root(cls, p, st, fuel=12):
+        """None if ok, else (root class, root param, how)."""
         if st[0] == "SV":
-            return True
+            return None
         if st[0] == "SX":
-            return st[1] == p
-        if st[0] == "SF" and fuel > 0:
+            return None if st[1] == p else (cls, p, "forwarded to scikit-learn as %r" % st[1])
+        if st[0] == "SF":
+            if st[2] != p:
+                return (cls, p, "forwarded to %s as %r" % (st[1], st[2]))
             parent = bykey.get(st[1])
-            if st[2] != p or parent is None or parent["init"] is None:
-                return False
+            if fuel == 0 or parent is None or parent["init"] is None:
+                return (cls, p, "forwarded to %s which has no such parameter" % st[1])
             for q, s2 in parent["init"]:
                 if q == p:
-                    return param_ok(q, s2, fuel - 1)
-            return False
-        return False
+                    return root(st[1], q, s2, fuel - 1)
+            return (cls, p, "forwarded to %s which has no such parameter" % st[1])
+        if st[0] == "SM":
+            return (cls, p, "stored modified: " + st[1])
+        return (cls, p, {"*": "*args constructor", "**": "**kwargs constructor"}.get(
+            p, "not stored under its own name"))
 
-    ctor, guard = [], []
+    ctor = {}
     for r in bykey.values():
         for p, st in (r["init"] or []):
-            if not param_ok(p, st):
-                ctor.append((r, p, st))
+            d = root(r["key"], p, st)
+            if d is not None:
+                e = ctor.setdefault((d[0], d[1]), {"cls": d[0], "param": d[1], "how": d[2],
+                                                   "module": bykey[d[0]]["module"], "via": []})
+                if r["key"] != d[0]:
+                    e["via"].append(r["key"])
+    guard = []
+    for r in bykey.values():
         for m, g in r["methods"]:
             if g[0] in ("GR", "GU"):
-                guard.append((r, m, g))
-    return ctor, guard
+                guard.append({"cls": r["key"], "module": r["module"], "owner": g[1], "method": m,
+                              "status": g[0], "what": g[2] if g[0] == "GU" else
+                              "a path completes without reaching the guard"})
+    return (sorted(ctor.values(), key=lambda d: (d["cls"], d["param"])),
+            sorted(guard, key=lambda d: (d["cls"], d["method"])))
 
 
 if __name__ == "__main__":
@@ -831,7 +850,7 @@ if __name__ == "__main__":
     t = extract(repo)
     ctor, guard = deviations(t)
     print("classes", len(t.allc), "estimators", len(t.rows))
-    for r, p, st in sorted(ctor, key=lambda x: (x[0]["key"], x[1])):
-        print("CTOR ", r["key"], p, st)
-    for r, m, g in sorted(guard, key=lambda x: (x[0]["key"], x[1])):
-        print("GUARD", r["key"], m, g)
+    for d in ctor:
+        print("CTOR ", d["cls"], d["param"], "|", d["how"], "| via", ",".join(d["via"]))
+    for d in guard:
+        print("GUARD", d["cls"], d["owner"], d["method"], d["status"], d["what"])
